@@ -389,6 +389,7 @@ let make_m1 (params : string list) : machine =
   let fast = ref (cfg_fast params) in
   (* versions whose root node sits under (v,0) in the physical store (PruneAlgo.phys_of) *)
   let rk : z list ref = ref [] in
+  let stale_handle = ref false in
   let out_of_contract (o : op) : bool =
     not (in_contractb !st o) && (match m_step !st o with (_, XErr) -> false | _ -> true) in
   (* the physical deletion (PruneAlgo.prune_forest) under a flush schedule; updates [rk] *)
@@ -471,6 +472,12 @@ let make_m1 (params : string list) : machine =
     Printf.sprintf "af(%s;[%s])" lbl
       (String.concat "," (List.map (fun (k, (u, v)) -> Printf.sprintf "%s=%s@%d" (hex_of_bytes k) (hex_of_bytes v) (int_of_z u)) !fs.fidx)) in
   let rec step1 (toks : string list) : string =
+        if !stale_handle then
+          (match toks with
+           | "r" :: t :: _ when t <> "w" -> ()
+           | "vexists" :: _ | "getv" :: _ | [ "avail" ] | [ "latest" ] | "audit" :: _ -> ()
+           | "load" :: _ | "reopen" :: _ -> stale_handle := false
+           | _ -> raise Out_of_contract);
         match toks with
         | ("dvreload" as o) :: n :: _ | [ ("prune" | "lvfo" | "wprune" | "wlvfo") as o; n ]
           when out_of_contract (if o = "lvfo" || o = "wlvfo" || o = "dvreload" then OLvfo (z_of_string n) else OPrune (z_of_string n)) ->
@@ -596,8 +603,12 @@ let make_m1 (params : string list) : machine =
                when something was deleted, rebuilt for the new latest version when enabled) *)
             let vz = int_of_string v in
             let loaded = int_of_z !st.version in
-            if loaded >= vz || vz < 1 then raise Out_of_contract
+            let dirty = (match !st.root with Some t -> int_of_z (node_meta t).ver = 0 | None -> false) in
+            if vz < 1 || (loaded >= vz && dirty) then raise Out_of_contract
             else begin
+              (* the handle's own version is deleted under it: until it is reloaded only questions
+                 about versions are compared (stale_handle; anything else cuts the case) *)
+              if loaded >= vz then stale_handle := true;
               let had = List.exists (fun (w, _) -> int_of_z w >= vz) !st.forest in
               st := { !st with forest = List.filter (fun (w, _) -> int_of_z w < vz) !st.forest };
               rk := List.filter (fun w -> int_of_z w < vz) !rk;
@@ -802,6 +813,14 @@ let make_m1 (params : string list) : machine =
     match !mm with
     | None -> None
     | Some s -> let s', x = memo_step_sha s o in mm := Some s'; Some x in
+  (* "ivlate": the harness queries the working hash after every odd-numbered write made before
+     SetInitialVersion (set and rm calls, accepted or not) *)
+  let iv_writes = ref 0 in
+  let early_write () =
+    if !iv_pending then begin
+      incr iv_writes;
+      if !iv_writes mod 2 = 1 then ignore (mdo MWorkingHash)
+    end in
   let memo_mirror (toks : string list) (r : string) : string =
     if !mm = None then r
     else begin
@@ -809,13 +828,14 @@ let make_m1 (params : string list) : machine =
        | "set" :: _ | "rm" :: _ -> ()
        | _ -> if !iv_pending then begin
                 iv_pending := false;
-                ignore (mdo MWorkingHash);
                 (* VERIF_MEMO_NORESET: self-test of the mirror (the unrepaired SetInitialVersion) *)
                 ignore (mdo (MSetIV (z_of_string iv, Sys.getenv_opt "VERIF_MEMO_NORESET" = None)))
               end);
       match toks with
-      | [ "set"; k; v ] -> if v <> "-" then ignore (mdo (MSet (bytes_of_tok k, bytes_of_tok v))); r
-      | [ "rm"; k ] -> ignore (mdo (MRemove (bytes_of_tok k))); r
+      | [ "set"; k; v ] ->
+          if v <> "-" then ignore (mdo (MSet (bytes_of_tok k, bytes_of_tok v)));
+          early_write (); r
+      | [ "rm"; k ] -> ignore (mdo (MRemove (bytes_of_tok k))); early_write (); r
       | [ "whash" ] | [ "r"; "w"; "hash" ] ->
           (match mdo MWorkingHash with
            | Some (MOHash h) when "b:" ^ hex_of_bytes h <> r -> "modelfail:memo machine working hash " ^ hex_of_bytes h ^ " M1 " ^ r
